@@ -275,6 +275,12 @@ func (h *UnprotectedHeader) UnmarshalCBOR(data []byte) error {
 	if data[0]>>5 != 5 { // major type 5: map
 		return errors.New("cbor: unprotected header: require map type")
 	}
+	// Tags are data in the protected bucket only: a message is decoded with
+	// tags forbidden everywhere else, and MarshalCBOR refuses a value that
+	// needs one. Decoding the bucket on its own must not be more lenient.
+	if err := decModeWithTagsForbidden.Wellformed(data); err != nil {
+		return err
+	}
 	if err := validateHeaderLabelCBOR(data); err != nil {
 		return err
 	}
